@@ -943,8 +943,12 @@ M1 == {c \in RootMoves : Mated(c)}
 AllowsM1(c) == \E j \in 1..Len(Moves[c]) : Mated(Moves[c][j])
 \* C08
 MateInOnePlayed == (done /\ Aborts = 0 /\ M1 # {}) => bestMove \in M1
+\* (C08 speaks about a fresh engine; with a game history C09 takes precedence: a move that brings about a third
+\* occurrence is valued as a draw whatever the position allows - found by TLC on the random graph family, seed 3:
+\* the repeated position allows mate in one and the draw score still wins.  Such moves are excluded here.)
 NoAvoidableMateAllowed ==
-   (done /\ Aborts = 0 /\ D \in 2..3 /\ M1 = {} /\ \E c \in RootMoves : ~AllowsM1(c)) => ~AllowsM1(bestMove)
+   (done /\ Aborts = 0 /\ D \in 2..3 /\ M1 = {} /\ (\E c \in RootMoves : ~AllowsM1(c))
+         /\ ~\E c \in RootMoves : AllowsM1(c) /\ RepDraw(RepStack, c)) => ~AllowsM1(bestMove)
 
 \* observation for the interruption-point argument (printed once per finished behaviour of round 1)
 FirstTruePolls == (pc["s"] = "s1" /\ round = 0) => PrintT(<<"FTP", firstTrue>>)
